@@ -45,6 +45,7 @@ type Exec struct {
 	opaqueAx  map[string]string // defining axioms of opaque predicates, by symbol
 	opaqueRec map[string]bool   // opaque predicates whose definition mentions themselves
 	aliasCells map[string]*Cell // slice variables whose backing array an append wrote into, by ghost key
+	nameSnap  map[string][]string // declared names per function on the pinned tree (props/localnames.json)
 	lemmaAx     string // axioms generated from proved lemma functions (see lemmaax.go)
 	lemmaAxDone bool
 	cellN     int
